@@ -387,7 +387,7 @@ Section History.
         * destruct (rm_in i j _ Hp) as [->|Hr]; [|now left].
           right. rewrite Eci in Hj. injection Hj as <-. intros e He. apply I1. now right.
         * right. intros e He. apply I1. left. auto.
-    - left. cbn [fst db active]. repeat split; [exact I|intros e []|discriminate].
+    - left. cbn [fst db active]. split; [exact I|]. split; [intros e []|discriminate].
     - destruct (active s) eqn:Ea; cbn [fst]; left; [repeat split; auto|].
       cbn [db active pend]. repeat split; auto. intros _ j c Hj. left. apply in_seq.
       unfold digests. rewrite map_length. split; [lia|]. cbn. apply nth_error_Some. congruence.
@@ -399,6 +399,37 @@ Section History.
     destruct (hist_step s e Hi) as [Hi'|Cn]; [|now right]. apply IH. exact Hi'.
   Qed.
 
+  (* the delivery that ends the restore *)
+  Lemma hist_done s i b s' :
+    hist_inv s -> rstep H Hd decode root digests s (EChunk i b) = (s', ROk) -> active s' = false ->
+    db s' = contents t \/ collision Hd.
+  Proof.
+    intros (Ss & Is & Ip) Hstep Hdone. cbn [rstep] in Hstep.
+    destruct (active s) eqn:Ea; cbn [negb] in Hstep; [|congruence].
+    destruct (existsb (Nat.eqb i) (pend s)); cbn [negb] in Hstep; [|congruence].
+    destruct (nth_error digests i) as [d|] eqn:Ed; [|congruence].
+    unfold digests in Ed. rewrite nth_error_map in Ed.
+    destruct (nth_error cs i) as [ci|] eqn:Eci; [|discriminate]. cbn in Ed. injection Ed as <-.
+    unfold restore_chunk in Hstep.
+    destruct (bytes_eqb (Hd b) (Hd (enc ci))) eqn:Eb; cbn [negb] in Hstep; [|congruence].
+    apply bytes_eqb_eq in Eb. destruct (H_inj_or Hd _ _ Eb) as [->|Cn]; [|now right].
+    rewrite dec_enc in Hstep. destruct (verify H root ci); [|congruence].
+    injection Hstep as <-. cbn [active db] in *. apply negb_false_iff, Nat.eqb_eq in Hdone.
+    assert (In ci cs) as Hci by (eapply nth_error_In; eauto).
+    assert (incl (pleaves ci) (contents t)) as Hs by (eapply chunks_sound; exact Hci).
+    destruct (import_in (contents t) (contents_sorted t Wt) (pleaves ci) (db s) Ss Is Hs) as [S1 I1].
+    left. unfold import. fold put. apply sorted_ext; [exact S1|now apply contents_sorted|].
+    intros e. split.
+    - intros He. apply I1 in He as [He|He]; auto.
+    - intros He. apply I1.
+      destruct (chunks_cover_all H size threads t e Wt He) as (c & Hc & Hin). fold cs in Hc.
+      apply In_nth_error in Hc as [j Hj].
+      destruct (Ip eq_refl j c Hj) as [Hp|Hi]; [|left; auto].
+      destruct (rm_in i j _ Hp) as [->|Hr].
+      + rewrite Eci in Hj. injection Hj as <-. now right.
+      + destruct (rm i (pend s)); [destruct Hr|discriminate].
+  Qed.
+
   (* For ANY sequence of starts, aborts and deliveries (genuine, corrupt,
      duplicate, out of order) into an empty database: what is visible is always
      part of the checkpointed contents, and the delivery that ends the restore
@@ -408,27 +439,12 @@ Section History.
     let s := rrun H Hd decode root digests (mkr false [] []) evs in
     (incl (db s) (contents t) /\
      forall i b s', rstep H Hd decode root digests s (EChunk i b) = (s', ROk) ->
-                    active s' = false -> db s' = contents t)
+                    active s' = false -> db s' = contents t \/ collision Hd)
     \/ collision Hd.
   Proof.
-    intros s. destruct (hist_run evs (mkr false [] [])) as [Hi|Cn]; [|now right|].
-    { repeat split; [exact I|intros e []|discriminate]. }
-    fold s in Hi. destruct (hist_step s (EChunk 0 []) Hi) as [_|Cn]; [|now right].
-    assert (forall i b, hist_inv (fst (rstep H Hd decode root digests s (EChunk i b))) \/ collision Hd) as Hn
-      by (intros; now apply hist_step).
-    destruct (classic_or_collision Hn) as [Hall|Cn]; [|now right].
-    left. split; [apply Hi|]. intros i b s' Hstep Hdone.
-    specialize (Hall i b). rewrite Hstep in Hall. cbn [fst] in Hall. destruct Hall as (S1 & I1 & _).
-    apply sorted_ext; [exact S1|now apply contents_sorted|]. intros e. split; [apply I1|]. intros He.
-    (* every chunk has been imported: pend s' = [] *)
-    destruct (chunks_cover_all H size threads t e Wt He) as (c & Hc & Hin). fold cs in Hc.
-    apply In_nth_error in Hc as [j Hj].
-    pose proof Hstep as Hstep2. cbn [rstep] in Hstep2.
-    destruct (active s) eqn:Ea; cbn [negb] in Hstep2; [|congruence].
-    destruct (existsb (Nat.eqb i) (pend s)); cbn [negb] in Hstep2; [|congruence].
-    destruct (nth_error digests i); [|congruence].
-    destruct (restore_chunk H Hd decode root b0 b (db s)) as [[] st'] eqn:Erc; try congruence.
-    injection Hstep2 as <-. cbn [active] in Hdone. apply negb_false_iff, Nat.eqb_eq in Hdone.
-    admit.
-  Abort.
+    intros s. assert (hist_inv (mkr false [] [])) as H0i.
+    { split; [exact I|]. split; [intros e []|discriminate]. }
+    destruct (hist_run evs _ H0i) as [Hi|Cn]; [|now right].
+    left. split; [apply Hi|]. intros i b s' Hstep Hdone. eapply hist_done; eauto.
+  Qed.
 End History.
